@@ -20,15 +20,22 @@ def refill_ok(p, si, ri, after):
     push(signal.next()); returns (kind, why): kind in {'iteration', 'exit'}"""
     loops = [l for l in range_loops(p) if l['enter'] > after]
     counters = [l for l in counter_loops(p) if l['enter'] > after] if not loops else []
-    if len(loops) + len(counters) != 1:
+    downs = [l for l in countdown_loops(p) if l['enter'] > after] if not (loops or counters) else []
+    if len(loops) + len(counters) + len(downs) != 1:
         return None, 'expected one refill loop over a range'
-    l = (loops or counters)[0]
+    l = (loops or counters or downs)[0]
+    if downs:
+        # `for frame in (&mut signal).take(max_len)`: dasp's own Take counts max_len down to zero
+        l = dict(l, lo=('int', 0, 'usize'), hi=l['count'])
+        take = p['events'][l['enter']]['before'][l['local']]
+        if take[1][1] != 'dasp_signal::Take' or ('ref', self_loc(si)) not in take[2]:
+            return None, 'refill loop must take from this signal'
     hi = l['hi']
     ok_bound = l['lo'] == ('int', 0, 'usize') and hi[0] == 'ret' and rb(p['events'][hi[1]], 'max_len') and p['events'][hi[1]]['args'][0] == ('ref', self_loc(ri))
     if not ok_bound:
         return None, 'refill loop must run over 0..ring_buffer.max_len() (is %s..%s)' % (short(l['lo']), short(hi))
-    if counters:
-        # `while pushed < max_len { ..; pushed += 1 }`: same trip count as the range loop
+    if counters or downs:
+        # `while pushed < max_len { ..; pushed += 1 }` / a count-down: same trip count as the range loop
         start = l['enter']
         d = ('int', 1, 'isize') if l['kind'] == 'iteration' else ('int', 0, 'isize')
     else:
@@ -43,7 +50,9 @@ def refill_ok(p, si, ri, after):
     if outside:
         return None, 'pulls or pushes outside the refill loop'
     if d == ('int', 1, 'isize'):
-        ok = (len(nx) == 1 and len(pu) == 1 and nx[0][0] < pu[0][0] and nx[0][1]['args'][0] == ('ref', self_loc(si))
+        src_ok = len(nx) == 1 and (nx[0][1]['args'][0] == ('ref', self_loc(si)) or (
+            nx[0][1]['args'][0][0] == 'ref' and nx[0][1]['args'][0][1][0][0] == 'L' and (nx[0][1].get('pre') or {}).get(0) == ('ref', self_loc(si))))
+        ok = (len(nx) == 1 and len(pu) == 1 and nx[0][0] < pu[0][0] and src_ok
               and pu[0][1]['args'] == [('ref', self_loc(ri)), ('ret', nx[0][0])] and len(body_evs) == 2)
         return ('iteration', None) if ok else (None, 'one refill iteration must be exactly ring_buffer.push(signal.next())')
     if d == ('int', 0, 'isize'):
